@@ -20,7 +20,7 @@ import warnings
 from fractions import Fraction
 
 from pysmt.environment import Environment
-from pysmt.typing import BOOL, INT, REAL, BVType, FunctionType
+from pysmt.typing import BOOL, INT, REAL, STRING, ArrayType, BVType, FunctionType
 
 from . import gen_all, lib, refeval, termcases, tocoq
 from .refeval import BV
@@ -47,7 +47,13 @@ RULE = ("every derived constructor and infix form x arities 0-6 x argument shape
         "Int/Real negation family and the Boolean family), the model call being the outer constructor on the implementation's inner result, the oracle the "
         "composition of the direct definitions on the leaf values (exhaustive over x and y). N-ARY OPERANDS: every infix operator (unary, binary with a symbol and "
         "with a Python literal, reflected forms) on operands built by explicit Plus/Times/And/Or/BVAdd/BVMul/BVAnd/BVOr calls of arity 1-5 with 1/-1/0 "
-        "(TRUE/FALSE; 0/1/all-ones) at every position, nested once, evaluated on a grid where no factor is 1")
+        "(TRUE/FALSE; 0/1/all-ones) at every position, nested once, evaluated on a grid where no factor is 1. "
+        "THEORY-HEADED OPERANDS: every unary-closable derived constructor / infix form (the arithmetic, Boolean and bit-vector operator families above plus relations, "
+        "3-ary Min/Max/AllDifferent/ExactlyOne/AtMostOne/BVAdd and reflected forms, operand in either position) on operands of the right sort whose top node is an "
+        "operator of another theory: Int from str.len, str.to_int, str.indexof, bv2nat, ite, select, UF, div, nested string conversions; Real from to_real of those, "
+        "ite, select, UF, div, pow; Bool from str.contains/prefixof/suffixof, string/BV/Int/Real relations, select, UF predicate, forall/exists over Bool/BV, ite; BV1-3 "
+        "from select, ite, UF, concat/extract/extend/rotate/comp and core BV operators; values by refeval on sampled interpretations plus a fixed grid of strings "
+        "('', 'abc', '-7', '12', '007', 'a1', '9') and integers that reaches str.to_int = -1, str.indexof = -1, the empty string and the bv2nat boundaries")
 
 VALID, INVALID, ANY = "valid", "invalid", "any"
 MUST_RAISE = object()
@@ -822,7 +828,7 @@ def comp_specs(pools, rnd, tier, out, abs_fn):
         except Exception:  # noqa
             return None
 
-    def family(leaf, ops_of, cross_keep, d3_keep, inner_filter=None):
+    def family(leaf, ops_of, cross_keep, d3_keep, inner_filter=None, same_keep=None):
         lvl1 = []
         for o in ops_of(sort_of(leaf), True):
             r = emit([o], leaf, leaf)
@@ -834,6 +840,8 @@ def comp_specs(pools, rnd, tier, out, abs_fn):
             for o2 in ops_of(tr, True):
                 same = o2.group == chain[0].group
                 if not same and (o2.valid != VALID or rnd.random() >= cross_keep):
+                    continue
+                if same and same_keep is not None and rnd.random() >= same_keep(o2):
                     continue
                 r2 = emit(chain + [o2], r, leaf)
                 if same and o2.group in D3 and r2 is not None and o2.valid == VALID and (inner_filter is None or inner_filter(o2)):
@@ -847,12 +855,14 @@ def comp_specs(pools, rnd, tier, out, abs_fn):
     named = lambda o: not o.name.startswith("infix<<") and not o.name.startswith("infix>>") and not o.name.startswith("method:")
     for t in [s_ for s_ in pools.sorts if s_.is_bv_type()]:
         w = t.width
-        cross = 1.0 if (w <= 2 or not quick) else (0.25 if w == 3 else 0.06)
+        cross = 1.0 if (w <= 2 or not quick) else (0.15 if w == 3 else 0.04)
         # depth 3 inside the shift family: 3 * 2^w amounts per level
         n3 = float((3 << w) ** 3)
-        shift3 = min(1.0, (700.0 if quick else 20000.0) / n3)
+        shift3 = min(1.0, (450.0 if quick else 20000.0) / n3)
         family(pools.P[t]["sym"][0], (lambda tt, outer: bv_ops(m, pools, tt, outer) if tt.is_bv_type() else []), cross,
-               (lambda g, shift3=shift3: shift3 if g == "shift" else (0.5 if quick else 1.0)), inner_filter=named)
+               (lambda g, shift3=shift3: shift3 if g == "shift" else (0.5 if quick else 1.0)), inner_filter=named,
+               # width 4, quick: the infix / method routes into the shift constructors are sampled (all named forms kept)
+               same_keep=(lambda o2: 0.35 if not named(o2) else 1.0) if (quick and w == 4) else None)
     for t in (INT, REAL):
         family(pools.P[t]["sym"][0], (lambda tt, outer, t=t: arith_ops(m, pools, t, abs_fn) if tt == t else []), 1.0, (lambda g: 0.5 if quick else 1.0))
     family(pools.P[BOOL]["sym"][0], (lambda tt, outer: bool_ops(m, pools) if tt.is_bool_type() else []), 1.0, (lambda g: 0.4 if quick else 1.0))
@@ -964,6 +974,134 @@ def nary_operand_specs(pools, rnd, tier, out):
             seen.add(n_)
             apply_all(n_, t, z, 1, ("PAdd", "PSub", "IRsub", "PMul", "PAnd", "POr", "PXor", "PLshift", "PRshift", "PMod", "PDiv", "PLt", "PGe"),
                       ("PSub", "PMul", "PLshift"), None)
+    return counts
+
+
+
+# ------------------------------------------------------------------------------ operands headed by operators of other theories
+# Every derived constructor / infix form on an operand of the right sort whose TOP node is an operator of
+# another theory (strings, arrays, UF, quantifiers, bv2nat, ite, div, pow, to_real, BV relations ...): a
+# constructor that special-cases the head operator of its operand shows up in the exact correspondence
+# (the model builds the plain term) and in the value oracle (operand value by refeval, on grids that reach
+# the operators' special values: str.to_int = -1, str.indexof = -1, bv2nat boundaries, empty strings).
+def head_pools(m, pools):
+    P = pools.P
+    p, i, r = P[BOOL]["sym"], P[INT]["sym"], P[REAL]["sym"]
+    bv1, bv2, bv3 = P[BVType(1)]["sym"], P[BVType(2)]["sym"], P[BVType(3)]["sym"]
+    s, t = m.Symbol("s", STRING), m.Symbol("t", STRING)
+    ai, ar, ab = m.Symbol("ai", ArrayType(INT, INT)), m.Symbol("ar", ArrayType(INT, REAL)), m.Symbol("ab", ArrayType(INT, BOOL))
+    abi, av, avv = m.Symbol("abi", ArrayType(BVType(2), INT)), m.Symbol("av", ArrayType(INT, BVType(2))), m.Symbol("avv", ArrayType(BVType(2), BVType(2)))
+    fi, fs = m.Symbol("fi", FunctionType(INT, [INT])), m.Symbol("fs", FunctionType(INT, [STRING]))
+    fr, fb = m.Symbol("fr", FunctionType(REAL, [REAL, INT])), m.Symbol("fb", FunctionType(BOOL, [INT]))
+    fv, fiv = m.Symbol("fv", FunctionType(BVType(2), [BVType(2)])), m.Symbol("fiv", FunctionType(BVType(2), [INT]))
+    qb, qv = m.Symbol("qb", BOOL), m.Symbol("qv", BVType(2))
+    H = {}
+    H[INT] = [m.StrLength(s), m.StrToInt(s), m.StrIndexOf(s, t, i[2]), m.BVToNatural(bv2[0]), m.BVToNatural(bv3[1]), m.Ite(p[0], i[0], i[2]),
+              m.Select(ai, i[0]), m.Select(abi, bv2[0]), m.Function(fi, [i[0]]), m.Function(fs, [s]), m.Div(i[0], m.Int(3)), m.Div(i[0], i[2]),
+              m.StrToInt(m.IntToStr(i[0])), m.StrLength(m.StrConcat(s, t)), m.StrToInt(m.StrSubstr(s, m.Int(0), m.Int(1))), m.Minus(i[0], i[2]),
+              m.Times(i[0], m.Int(-1)), m.Ite(m.StrContains(s, t), m.StrToInt(s), m.StrIndexOf(t, s, m.Int(0)))]
+    H[REAL] = [m.ToReal(i[0]), m.ToReal(m.StrToInt(s)), m.ToReal(m.StrLength(s)), m.ToReal(m.BVToNatural(bv2[0])), m.ToReal(m.StrIndexOf(s, t, m.Int(0))),
+               m.Ite(p[0], r[0], r[2]), m.Select(ar, i[0]), m.Function(fr, [r[0], i[0]]), m.Div(r[0], r[2]), m.Div(r[0], m.Real(3)), m.Pow(r[0], m.Real(2)),
+               m.Pow(m.ToReal(i[0]), m.Real(3)), m.Minus(r[0], r[2]), m.Times(r[0], m.Real(-1))]
+    H[BOOL] = [m.StrContains(s, t), m.StrPrefixOf(s, t), m.StrSuffixOf(t, s), m.Equals(s, t), m.BVULT(bv2[0], bv2[1]), m.BVSLE(bv2[0], bv2[1]),
+               m.Equals(i[0], i[2]), m.LE(r[0], r[2]), m.LT(m.StrToInt(s), m.Int(0)), m.Select(ab, i[0]), m.Function(fb, [i[0]]),
+               m.ForAll([qb], m.Or(qb, p[3])), m.Exists([qv], m.BVULT(qv, bv2[0])), m.Ite(p[0], p[2], p[3]), m.Equals(bv2[0], bv2[1]),
+               m.Not(m.StrContains(s, t)), m.Iff(p[0], p[2]), m.Implies(p[0], p[2])]
+    H[BVType(2)] = [m.Select(av, i[0]), m.Select(avv, bv2[0]), m.Ite(p[0], bv2[0], bv2[2]), m.Function(fv, [bv2[0]]), m.Function(fiv, [i[0]]),
+                    m.BVConcat(bv1[0], bv1[2]), m.BVExtract(bv3[0], 0, 1), m.BVExtract(bv3[0], 1, 2), m.BVZExt(bv1[0], 1), m.BVSExt(bv1[0], 1),
+                    m.BVRol(bv2[0], 1), m.BVXor(bv2[0], bv2[2]), m.BVUDiv(bv2[0], bv2[2]), m.BVSRem(bv2[0], bv2[2]), m.BVNeg(bv2[0]),
+                    m.BVLShl(bv2[0], bv2[2]), m.BVLShl(bv2[0], m.BV(1, 2)), m.BVAShr(bv2[0], m.BV(3, 2)), m.BVAdd(bv2[0], m.BV(1, 2))]
+    H[BVType(1)] = [m.BVComp(bv2[0], bv2[1]), m.BVExtract(bv3[0], 2, 2), m.Ite(p[0], bv1[0], bv1[2])]
+    H[BVType(3)] = [m.BVConcat(bv1[0], bv2[0]), m.BVZExt(bv2[0], 1), m.BVSExt(bv1[0], 2), m.Ite(m.BVULT(bv3[0], bv3[2]), bv3[0], bv3[2])]
+    V = lambda a, b, c, d: {s: a, t: b, i[0]: c, i[2]: d}
+    grid = [V("", "", -1, 0), V("abc", "b", 0, 3), V("-7", "7", 5, -2), V("12", "2", -4, 1), V("007", "00", 1, 2), V("a1", "1", 2, 0), V("9", "", 3, -1)]
+    return H, grid
+
+
+def rel_ops(m, pools, t):
+    """Relations / n-ary constructors / reflected forms with the operand in either position (two more symbols)."""
+    ops = []
+
+    def A(*a, **kw):
+        ops.append(Op(*a, **kw))
+    y, z = pools.P[t]["sym"][1], pools.P[t]["sym"][3]
+    ys, zs = y.serialize(), z.serialize()
+    if t.is_int_type() or t.is_real_type():
+        for nm_, call, fmt, d in (("GE", m.GE, "Some (mk_ge %s %s)", lambda a, b: a >= b), ("GT", m.GT, "Some (mk_gt %s %s)", lambda a, b: a > b),
+                                  ("NotEquals", m.NotEquals, "Some (mk_neq %s %s)", lambda a, b: a != b),
+                                  ("EqualsOrIff", m.EqualsOrIff, "Some (mk_equals_or_iff %s %s)", lambda a, b: a == b),
+                                  ("infix:__ge__", (lambda a, b: a >= b), "infix %s (IPy PGe) (OpT %s)", lambda a, b: a >= b),
+                                  ("infix:__lt__", (lambda a, b: a < b), "infix %s (IPy PLt) (OpT %s)", lambda a, b: a < b)):
+            A(nm_, "rel", (lambda f, call=call: call(f, y)), (lambda n, nm, fmt=fmt: fmt % (n, nm[y])), (lambda x, c, d=d: d(x, c[y])),
+              (lambda a, nm_=nm_: "%s(%s, %s)" % (nm_, a, ys)), y=y)
+            A(nm_ + "/flip", "rel", (lambda f, call=call: call(y, f)), (lambda n, nm, fmt=fmt: fmt % (nm[y], n)), (lambda x, c, d=d: d(c[y], x)),
+              (lambda a, nm_=nm_: "%s(%s, %s)" % (nm_, ys, a)), y=y)
+        A("infix:__ge__/reflected", "rel", (lambda f: 3 <= f), (lambda n, nm: "infix %s (IPy PGe) (OpInt 3%%Z)" % n), (lambda x, c: 3 <= x), (lambda a: "(3 <= %s)" % a))
+        A("infix:__gt__/int", "rel", (lambda f: f > -1), (lambda n, nm: "infix %s (IPy PGt) (OpInt (-1)%%Z)" % n), (lambda x, c: x > -1), (lambda a: "(%s > -1)" % a))
+        A("infix:__le__/int", "rel", (lambda f: f <= 0), (lambda n, nm: "infix %s (IPy PLe) (OpInt 0%%Z)" % n), (lambda x, c: x <= 0), (lambda a: "(%s <= 0)" % a))
+        A("AllDifferent/3", "rel", (lambda f: m.AllDifferent(y, f, z)), (lambda n, nm: "Some (mk_all_different [%s; %s; %s])" % (nm[y], n, nm[z])),
+          (lambda x, c: len(set([c[y], x, c[z]])) == 3), (lambda a: "AllDifferent(%s, %s, %s)" % (ys, a, zs)), y=(y, z))
+        A("Min/3", "rel", (lambda f: m.Min(y, f, z)), (lambda n, nm: "mk_min [%s; %s; %s]" % (nm[y], n, nm[z])), (lambda x, c: min(c[y], x, c[z])),
+          (lambda a: "Min(%s, %s, %s)" % (ys, a, zs)), y=(y, z))
+        A("Max/3", "rel", (lambda f: m.Max(z, y, f)), (lambda n, nm: "mk_max [%s; %s; %s]" % (nm[z], nm[y], n)), (lambda x, c: max(c[y], x, c[z])),
+          (lambda a: "Max(%s, %s, %s)" % (zs, ys, a)), y=(y, z))
+    elif t.is_bool_type():
+        A("ExactlyOne/3", "rel", (lambda f: m.ExactlyOne(y, f, z)), (lambda n, nm: "Some (mk_exactly_one [%s; %s; %s])" % (nm[y], n, nm[z])),
+          (lambda x, c: [c[y], x, c[z]].count(True) == 1), (lambda a: "ExactlyOne(%s, %s, %s)" % (ys, a, zs)), y=(y, z))
+        A("AtMostOne/3", "rel", (lambda f: m.AtMostOne(y, z, f)), (lambda n, nm: "Some (mk_at_most_one [%s; %s; %s])" % (nm[y], nm[z], n)),
+          (lambda x, c: [c[y], x, c[z]].count(True) <= 1), (lambda a: "AtMostOne(%s, %s, %s)" % (ys, zs, a)), y=(y, z))
+        for nm_, call, fmt, d in (("Xor", m.Xor, "Some (mk_xor %s %s)", lambda a, b: a != b),
+                                  ("EqualsOrIff", m.EqualsOrIff, "Some (mk_equals_or_iff %s %s)", lambda a, b: a == b),
+                                  ("AllDifferent", m.AllDifferent, "Some (mk_all_different [%s; %s])", lambda a, b: a != b),
+                                  ("infix:__and__", (lambda a, b: a & b), "infix %s (IPy PAnd) (OpT %s)", lambda a, b: a and b),
+                                  ("method:Implies", (lambda a, b: a.Implies(b)), "infix %s (IMeth CImplies) (OpT %s)", lambda a, b: (not a) or b)):
+            A(nm_ + "/flip", "rel", (lambda f, call=call: call(y, f)), (lambda n, nm, fmt=fmt: fmt % (nm[y], n)), (lambda x, c, d=d: d(c[y], x)),
+              (lambda a, nm_=nm_: "%s(%s, %s)" % (nm_, ys, a)), y=y)
+    else:
+        for nm_, call, fmt, d in (("BVUGT", m.BVUGT, "Some (mk_bvugt %s %s)", lambda a, b: a.value > b.value),
+                                  ("BVUGE", m.BVUGE, "Some (mk_bvuge %s %s)", lambda a, b: a.value >= b.value),
+                                  ("BVSGT", m.BVSGT, "Some (mk_bvsgt %s %s)", lambda a, b: a.signed() > b.signed()),
+                                  ("BVSGE", m.BVSGE, "Some (mk_bvsge %s %s)", lambda a, b: a.signed() >= b.signed()),
+                                  ("NotEquals", m.NotEquals, "Some (mk_neq %s %s)", lambda a, b: a != b),
+                                  ("EqualsOrIff", m.EqualsOrIff, "Some (mk_equals_or_iff %s %s)", lambda a, b: a == b),
+                                  ("infix:__ge__", (lambda a, b: a >= b), "infix %s (IPy PGe) (OpT %s)", lambda a, b: a.value >= b.value)):
+            A(nm_, "rel", (lambda f, call=call: call(f, y)), (lambda n, nm, fmt=fmt: fmt % (n, nm[y])), (lambda x, c, d=d: d(x, c[y])),
+              (lambda a, nm_=nm_: "%s(%s, %s)" % (nm_, a, ys)), y=y)
+            A(nm_ + "/flip", "rel", (lambda f, call=call: call(y, f)), (lambda n, nm, fmt=fmt: fmt % (nm[y], n)), (lambda x, c, d=d: d(c[y], x)),
+              (lambda a, nm_=nm_: "%s(%s, %s)" % (nm_, ys, a)), y=y)
+        A("AllDifferent/3", "rel", (lambda f: m.AllDifferent(y, f, z)), (lambda n, nm: "Some (mk_all_different [%s; %s; %s])" % (nm[y], n, nm[z])),
+          (lambda x, c: len(set([c[y], x, c[z]])) == 3), (lambda a: "AllDifferent(%s, %s, %s)" % (ys, a, zs)), y=(y, z))
+        A("BVAdd/3", "rel", (lambda f: m.BVAdd(y, f, z)), (lambda n, nm: "mk_bvadd_n [%s; %s; %s]" % (nm[y], n, nm[z])),
+          (lambda x, c: bvv(x.width, c[y].value + x.value + c[z].value)), (lambda a: "BVAdd(%s, %s, %s)" % (ys, a, zs)), y=(y, z))
+    return ops
+
+
+def head_specs(pools, rnd, tier, out, abs_fn):
+    import pysmt.operators as pop
+    m = pools.m
+    H, grid = head_pools(m, pools)
+    counts = {"operands": 0, "calls": 0}
+    for t, heads in H.items():
+        if t.is_bv_type():
+            ops = bv_ops(m, pools, t, True)
+        elif t.is_bool_type():
+            ops = bool_ops(m, pools)
+        else:
+            ops = arith_ops(m, pools, t, abs_fn)
+        ops = ops + rel_ops(m, pools, t)
+        for h in heads:
+            counts["operands"] += 1
+            hname = pop.op_to_str(h.node_type())
+            for o in ops:
+                ys = [] if o.y is None else (list(o.y) if isinstance(o.y, tuple) else [o.y])
+                direct = None
+                if o.direct is not None:
+                    def direct(v, o=o, ys=ys):
+                        return o.direct(v[0], dict(zip(ys, v[1:])))
+                out.append(Spec("head:" + o.name, "%s:%s" % (hname, sname(t)), o.text(h.serialize()), (lambda o=o, h=h: o.impl(h)),
+                                (lambda nm, o=o, h=h: o.model(nm[h], nm)), operands=[h] + ys, direct=direct, valid=o.valid, extra=o.extra,
+                                limit=1024, grid=grid))
+                counts["calls"] += 1
     return counts
 
 
@@ -1102,6 +1240,11 @@ def build_all(tier, rnd):
     def naryop(env, pools, out):
         fam["nary_operands"] = nary_operand_specs(pools, rnd, tier, out)
     group(naryop)
+
+    def heads(env, pools, out):
+        import pysmt.shortcuts as sc
+        fam["theory_headed_operands"] = head_specs(pools, rnd, tier, out, sc.Abs)
+    group(heads)
     build_all.families = fam
     return groups
 
